@@ -6,6 +6,10 @@ import (
 	"bytes"
 	"fmt"
 	"os"
+	"runtime"
+	"sync"
+	"sync/atomic"
+	"time"
 
 	"github.com/kubewharf/kubebrain/pkg/backend"
 	"github.com/kubewharf/kubebrain/pkg/backend/coder"
@@ -189,7 +193,12 @@ func main() {
 			if rnd.Chance(1, 4) {
 				p = append(genAlphaKey(rnd), bytes.Repeat([]byte{0xff}, rnd.Intn(3))...)
 			}
-			out := backend.PrefixEnd(exact(p))
+			arg := exact(p)
+			out := backend.PrefixEnd(arg)
+			if !bytes.Equal(arg, p) { // the caller's prefix must survive the call
+				w.Fail(lib.ImplFailure{CaseID: w.Len(), What: fmt.Sprintf("PrefixEnd modified its argument: %x became %x (returned %x)", p, arg, out),
+					Case: map[string]interface{}{"op": "prefix_end", "p": lib.HexBytes(p), "p_after": lib.HexBytes(arg), "out": lib.HexBytes(out)}})
+			}
 			oc := "end"
 			if bytes.Equal(out, []byte{0}) {
 				oc = "no-end"
@@ -236,7 +245,10 @@ func main() {
 				}
 			}
 			r := genRev(rnd)
-			lo, hi := cd.EncodeObjectKey(p, 0), cd.EncodeObjectKey(backend.PrefixEnd(exact(p)), 0)
+			// one caller-owned slice for both borders, the end computed first (a caller that keeps its prefix)
+			arg := exact(p)
+			hi := cd.EncodeObjectKey(backend.PrefixEnd(arg), 0)
+			lo := cd.EncodeObjectKey(arg, 0)
 			in := inBounds(lo, hi, cd.EncodeObjectKey(k, r))
 			w.Add(lib.Case{Kind: "prefix_enclosure", Coq: lib.App("KEncl", lib.Bytes(p), lib.Bytes(k), lib.N(r), lib.Bool(in)),
 				JSON:     map[string]interface{}{"op": "prefix_enclosure", "p": lib.HexBytes(p), "k": lib.HexBytes(k), "rev": r, "inside": in},
@@ -255,10 +267,66 @@ func main() {
 				Outcomes: []string{fmt.Sprintf("inside-%v", in)}})
 		}
 	}
+	concurrentRoundTrips(w, args.Tier)
 	// uint64ToBytes is unexported: observed through the index-record value format (8 bytes big endian)
 	// which ParseRevision inverts; covered by KPar on 8-byte inputs.
 	if err := w.Finish("inputs drawn from structured pools (alphabet keys with 0xff/'%' edges, prefix-related key pairs, revisions at byte boundaries and 2^64-1, truncated/bit-flipped internal keys); distinct = SHA-256 of the Coq case; non-trivial = not (empty key encode) and not (identical pair in an order case)"); err != nil {
 		fmt.Fprintln(os.Stderr, err)
 		os.Exit(2)
 	}
+}
+
+// concurrentRoundTrips: the coder is one stateless value shared by all request goroutines, so the round trip
+// must also hold when several goroutines encode at once (short keys included: any scratch space shared
+// between calls shows up here). Every goroutine owns its keys; a failure is reported with the exact call.
+func concurrentRoundTrips(w *lib.Writer, tier string) {
+	dur := 400 * time.Millisecond
+	if tier != "quick" {
+		dur = 3 * time.Second
+	}
+	if runtime.GOMAXPROCS(0) < 4 {
+		defer runtime.GOMAXPROCS(runtime.GOMAXPROCS(4))
+	}
+	keys := [][]string{{"", "/a", "/registry/pods/a"}, {"/b", "%"}, {"/cd", "/registry/x"}, {"xyz", "~"}, {"/e/f", "a"}, {"~~", "/"}, {"a.b", "\xff"}, {"/abc", "%\xff"}}
+	var (
+		wg    sync.WaitGroup
+		stop  int32
+		calls int64
+		mu    sync.Mutex
+		first *lib.ImplFailure
+	)
+	deadline := time.Now().Add(dur)
+	for g := range keys {
+		wg.Add(1)
+		go func(g int) {
+			defer wg.Done()
+			n := int64(0)
+			defer func() { atomic.AddInt64(&calls, n) }()
+			for i := uint64(1); atomic.LoadInt32(&stop) == 0; i++ {
+				key := []byte(keys[g][i%uint64(len(keys[g]))])
+				rev := i<<8 | uint64(g)
+				enc := cd.EncodeObjectKey(key, rev)
+				uk, r, err := cd.Decode(enc)
+				n++
+				if err != nil || !bytes.Equal(uk, key) || r != rev || !bytes.Equal(key, []byte(keys[g][i%uint64(len(keys[g]))])) {
+					mu.Lock()
+					if first == nil {
+						first = &lib.ImplFailure{CaseID: -1, What: fmt.Sprintf("round trip broken under concurrent encoding: EncodeObjectKey(%q, %d) = %x decodes to (%q, %d, err=%v)", keys[g][i%uint64(len(keys[g]))], rev, enc, uk, r, err),
+							Case: map[string]interface{}{"op": "concurrent_roundtrip", "goroutines": len(keys), "key": lib.HexBytes([]byte(keys[g][i%uint64(len(keys[g]))])), "rev": rev, "encoded": lib.HexBytes(enc), "decoded_key": lib.HexBytes(uk), "decoded_rev": r}}
+					}
+					mu.Unlock()
+					atomic.StoreInt32(&stop, 1)
+					return
+				}
+				if i%1024 == 0 && time.Now().After(deadline) {
+					return
+				}
+			}
+		}(g)
+	}
+	wg.Wait()
+	if first != nil {
+		w.Fail(*first)
+	}
+	w.Stats.Extra["concurrent_roundtrip_calls"] = calls
 }
